@@ -464,6 +464,46 @@ def scale(params, tier):
     return [("scale:%s" % sorted(p.items()), b.h, U if p["usage"] else NU, {})]
 
 
+@family("C02", "C17", "C12")
+def c02_closing(params, tier):
+    """A subscriber's websocket closing handshake has begun (its Close frame was processed, the connection is not lost
+    yet) when another client adds: the adder gets its ack and echo, every other subscriber the message, nobody is
+    dropped.  The closing connection is the first / middle / last registered listener; a sweep may fall into the
+    window; the closing one may be the adder's only peer."""
+    if params is None:
+        return [{"order": o, "third": t, "sweep": sw, "usage": u}
+                for o in ("ABC", "BAC", "CBA", "BCA") for t in (0, 1) for sw in (0, 1) for u in (0, 1)]
+    p = params
+    b = HB()
+    b.tag = "clo"
+    sides = {"A": "s1", "B": "s2", "C": "s1"}
+    cs = {}
+    for name in p["order"]:
+        if name == "C" and not p["third"]:
+            continue
+        cs[name] = b.conn("app", sides[name])
+        b.send(cs[name], type="open", mailbox="mC")
+    b.add(cs["B"], "0")
+    b.h.append(["closing", cs["A"]])
+    b.add(cs["B"], "1")
+    if "C" in cs:
+        b.add(cs["C"], "2")
+    if p["sweep"]:
+        b.adv(300)
+        b.add(cs["B"], "3")
+    b.send(cs["B"], type="ping", ping=7)
+    b.drop(cs["A"])
+    b.add(cs["B"], "4")
+    A2 = b.conn("app", "s1")
+    b.send(A2, type="open", mailbox="mC")
+    b.add(A2, "5")
+    b.h.append(["closing", cs["B"]])
+    b.add(A2, "6")
+    b.send(A2, type="close", mood="happy")
+    b.drop(cs["B"])
+    return [("c02_closing:%s" % sorted(p.items()), b.h, U if p["usage"] else NU, {})]
+
+
 @family("C05", "C14")
 def c05_first_two_return(params, tier):
     """F7: after a third side was refused, a first-two side reconnects."""
